@@ -183,10 +183,14 @@ def ur_single(payload, with_digest=True, head=None):
     return f"ur:bytes/{dg}/{body}" if with_digest else f"ur:bytes/{body}"
 
 
-def ur_parts(payload, max_size, head=None):
-    body, dg = ur_body(payload, head)
+def ur_fragments(body, dg, max_size):
     n, size = chunk_plan(len(body), max_size)
     return [f"ur:bytes/{i + 1}of{n}/{dg}/{frag}" for i, frag in enumerate(split_text(body, n, size))]
+
+
+def ur_parts(payload, max_size, head=None):
+    body, dg = ur_body(payload, head)
+    return ur_fragments(body, dg, max_size)
 
 
 class Bad(Exception):
